@@ -135,6 +135,28 @@ fn check_server(s: &Srv, out: &mut Out, which: &str) {
             out.add("C06", s, format!("RRQ for a missing file was answered with {:?} instead of ERROR 1 from the listening port", r.map(|x| verif_replay::fmt_packet(&x.0))));
         }
     }
+    {
+        // the refusals do not depend on who asks: an endpoint whose download is still running (it has DATA 1, has not acknowledged
+        // it) asks for a missing file / tries to write: same answers, from the listening port
+        let c = client();
+        c.send_to(&rrq("hello.bin", vec![]), s.addr).unwrap();
+        if let Some((Packet::Data { block_num: 1, .. }, transfer)) = recv(&c) {
+            c.send_to(&rrq("does-not-exist.bin", vec![]), s.addr).unwrap();
+            let r = recv(&c);
+            if !is_error(&r, ErrorCode::FileNotFound, s.addr) {
+                out.add("C06", s, format!("RRQ for a missing file from an endpoint whose download of hello.bin is still running was answered with {:?} instead of ERROR 1 from the listening port", r.map(|x| verif_replay::fmt_packet(&x.0))));
+            }
+            if s.cfg.read_only || !s.cfg.overwrite {
+                c.send_to(&wrq("existing.bin", vec![]), s.addr).unwrap();
+                let r = recv(&c);
+                let code = if s.cfg.read_only { ErrorCode::AccessViolation } else { ErrorCode::FileExists };
+                if !is_error(&r, code, s.addr) {
+                    out.add("C06", s, format!("WRQ for existing.bin from an endpoint whose download of hello.bin is still running was answered with {:?} instead of {:?} from the listening port", r.map(|x| verif_replay::fmt_packet(&x.0)), code));
+                }
+            }
+            let _ = c.send_to(&Packet::Error { code: ErrorCode::NotDefined, msg: "stop".into() }.serialize().unwrap(), if s.cfg.single { s.addr } else { transfer });
+        }
+    }
     for opts in [vec![opt(OptionType::TransferSize, 0)], vec![opt(OptionType::BlockSize, 1024), opt(OptionType::TransferSize, 0)]] {
         let c = client();
         c.send_to(&rrq("does-not-exist.bin", opts.clone()), s.addr).unwrap();
@@ -192,6 +214,43 @@ fn check_server(s: &Srv, out: &mut Out, which: &str) {
                 }
                 other => out.add("C09", s, format!("RRQ with blksize=1024 between two unknown options with non-numeric values (multicast=\"\", x-note=\"not a number\") was answered with {:?} instead of an OACK", other.map(|x| verif_replay::fmt_packet(&x.0)))),
             }
+        }
+        // options that restate the RFC 1350 defaults are options all the same: OACK exactly when one is recognised
+        for req in [vec![opt(OptionType::BlockSize, 512)], vec![opt(OptionType::Windowsize, 1)], vec![opt(OptionType::Timeout, 5)],
+                    vec![opt(OptionType::BlockSize, 512), opt(OptionType::Timeout, 5), opt(OptionType::Windowsize, 1)]] {
+            let c = client();
+            c.send_to(&rrq("hello.bin", req.clone()), s.addr).unwrap();
+            match recv(&c) {
+                Some((Packet::Oack(o), from)) => {
+                    if o != req {
+                        out.add("C09", s, format!("RRQ with {:?} (the default values, spelled out): OACK is {:?}", req, o));
+                    }
+                    let _ = c.send_to(&Packet::Error { code: ErrorCode::NotDefined, msg: "stop".into() }.serialize().unwrap(), from);
+                }
+                other => {
+                    out.add("C09", s, format!("RRQ with {:?} (the default values, spelled out) was answered with {:?} instead of an OACK", req, other.as_ref().map(|x| verif_replay::fmt_packet(&x.0))));
+                    if let Some((_, from)) = other {
+                        let _ = c.send_to(&Packet::Error { code: ErrorCode::NotDefined, msg: "stop".into() }.serialize().unwrap(), from);
+                    }
+                }
+            }
+        }
+        if !s.cfg.read_only {
+            let c = client();
+            let req = vec![opt(OptionType::TransferSize, 0), opt(OptionType::BlockSize, 512)];
+            c.send_to(&wrq("defaults-spelled-out.bin", req.clone()), s.addr).unwrap();
+            match recv(&c) {
+                Some((Packet::Oack(o), from)) => {
+                    if o != req {
+                        out.add("C09", s, format!("WRQ with {:?}: OACK is {:?}", req, o));
+                    }
+                    let _ = c.send_to(&Packet::Data { block_num: 1, data: vec![] }.serialize().unwrap(), from);
+                    let _ = recv(&c);
+                }
+                other => out.add("C09", s, format!("WRQ with {:?} (the default values, spelled out) was answered with {:?} instead of an OACK", req, other.map(|x| verif_replay::fmt_packet(&x.0)))),
+            }
+            std::thread::sleep(Duration::from_millis(20));
+            let _ = std::fs::remove_file(s.recv_dir.join("defaults-spelled-out.bin"));
         }
         {
             // tsize on a read request is the file's true size whatever number the client sent
@@ -285,6 +344,38 @@ fn check_server(s: &Srv, out: &mut Out, which: &str) {
                 if s.root.join("planted-abs.txt").exists() {
                     out.add("C03", s, format!("WRQ {:?} (an absolute path outside the receive directory) created {}", abs_planted, s.root.join("planted-abs.txt").display()));
                     let _ = std::fs::remove_file(s.root.join("planted-abs.txt"));
+                }
+            }
+        }
+    }
+    // ... also when the absolute path names a NEIGHBOUR of the served directory whose name starts with the directory's name
+    // (data / data.old), with one, two or three leading separators in either spelling
+    for (dir, write) in [(&s.send_dir, false), (&s.recv_dir, true)] {
+        let neighbour = PathBuf::from(format!("{}.old", dir.display()));
+        std::fs::create_dir_all(&neighbour).unwrap();
+        std::fs::write(neighbour.join("secret.txt"), b"TOP SECRET in a neighbour of the served directory").unwrap();
+        for lead in ["", "/", "//", "\\", "/\\"] {
+            if !write {
+                let name = format!("{lead}{}/secret.txt", neighbour.display());
+                let c = client();
+                c.send_to(&rrq(&name, vec![]), s.addr).unwrap();
+                if let Some((Packet::Data { data, .. }, _)) = recv(&c) {
+                    if data.starts_with(b"TOP SECRET") {
+                        out.add("C03", s, format!("RRQ {:?} (an absolute path to a neighbour of the send directory) was answered with the file's content", name));
+                    }
+                }
+            } else if !s.cfg.read_only {
+                let name = format!("{lead}{}/planted-nb.txt", neighbour.display());
+                let c = client();
+                c.send_to(&wrq(&name, vec![]), s.addr).unwrap();
+                if let Some((Packet::Ack(0), from)) = recv(&c) {
+                    let _ = c.send_to(&Packet::Data { block_num: 1, data: b"planted".to_vec() }.serialize().unwrap(), from);
+                    let _ = recv(&c);
+                }
+                std::thread::sleep(Duration::from_millis(30));
+                if neighbour.join("planted-nb.txt").exists() {
+                    out.add("C03", s, format!("WRQ {:?} (an absolute path to a neighbour of the receive directory) created {}", name, neighbour.join("planted-nb.txt").display()));
+                    let _ = std::fs::remove_file(neighbour.join("planted-nb.txt"));
                 }
             }
         }
